@@ -308,6 +308,14 @@ def check(c):
             want = sx([b'ok', [name.encode(), ins.encode()]])
             if o != want:
                 c.violation('completion-differs-from-model', {'kind': 'impl-vs-model', 'prefix': t, 'name': name, 'impl_insert': ins, 'model': o}, no_input=True)
+    # ---- panic-site census (informational: what is proved site by site) ----
+    try:
+        import sys as _sys, vlib as _vlib
+        _sys.path.insert(0, _vlib.ROOT + '/tools')
+        import panic_census
+        panic_census.attach(c)
+    except Exception as _e:
+        c.notes.append('panic census unavailable: %r' % (_e,))
     # ---- lexer model vs the real lexer (tokens, positions, error variants; oracle contract) ----
     lexcheck.run(c, ('tables', 'tie'))
     c.sample({'op': 'eval', 'cfg': meta[len(base) + 40][1], 'input': meta[len(base) + 40][3]})
